@@ -36,7 +36,8 @@ type TNode struct {
 	UPol     bool       `json:"upol,omitempty"`         // pure user Unmarshaler (constant output)
 	EPol     int        `json:"epol,omitempty"`         // equality policy: 1 always equal, 2 never equal
 	ReadOnly bool       `json:"ro,omitempty"`
-	Alias    int        `json:"alias,omitempty"` // 0 native, 1 AStack, 2 *AStack, 3 SStack, 4 *SStack / same for conditions
+	Shared   bool       `json:"shared,omitempty"` // this very node occurs at more than one position: ONE instance is built and stored at each
+	Alias    int        `json:"alias,omitempty"`  // 0 native, 1 AStack, 2 *AStack, 3 SStack, 4 *SStack / same for conditions
 	Kids     []*TNode   `json:"kids,omitempty"`
 
 	// condition
@@ -136,6 +137,38 @@ func (o *OpDesc) Text() string { return o.Build().String() }
 
 // Build instantiates the description. Stacks/Conditions come back in the form selected by Alias.
 func (n *TNode) Build() any {
+	if n.Shared && buildMemo != nil {
+		if v, ok := buildMemo[n]; ok {
+			return v
+		}
+		v := n.build()
+		buildMemo[n] = v
+		return v
+	}
+	return n.build()
+}
+
+// one top-level BuildStack / BuildCond call instantiates every Shared node once
+var (
+	buildMemo  map[*TNode]any
+	buildDepth int
+)
+
+func buildEnter() {
+	if buildDepth == 0 {
+		buildMemo = map[*TNode]any{}
+	}
+	buildDepth++
+}
+
+func buildLeave() {
+	buildDepth--
+	if buildDepth == 0 {
+		buildMemo = nil
+	}
+}
+
+func (n *TNode) build() any {
 	switch n.T {
 	case "nil":
 		return nil
@@ -187,6 +220,8 @@ func (n *TNode) Build() any {
 
 // BuildStack instantiates a stack node as a native Stack.
 func (n *TNode) BuildStack() stackage.Stack {
+	buildEnter()
+	defer buildLeave()
 	s := NewStack(n.Kind, n.Cap)
 	if n.Fifo {
 		s.SetFIFO(true)
@@ -255,6 +290,8 @@ var errPolicyRejects = fmt.Errorf("validity policy rejects this stack")
 
 // BuildCond instantiates a condition node as a native Condition.
 func (n *TNode) BuildCond() stackage.Condition {
+	buildEnter()
+	defer buildLeave()
 	var c stackage.Condition
 	c.Init()
 	c.SetKeyword(n.Kw)
@@ -329,7 +366,36 @@ func (n *TNode) Walk(f func(*TNode)) {
 	}
 }
 
+// Clone copies the description; Shared nodes stay shared among their positions in the copy.
 func (n *TNode) Clone() *TNode {
+	if cloneDepth == 0 {
+		cloneMemo = map[*TNode]*TNode{}
+	}
+	cloneDepth++
+	defer func() {
+		cloneDepth--
+		if cloneDepth == 0 {
+			cloneMemo = nil
+		}
+	}()
+	if n.Shared {
+		if c, ok := cloneMemo[n]; ok {
+			return c
+		}
+	}
+	c := n.clone()
+	if n.Shared {
+		cloneMemo[n] = c
+	}
+	return c
+}
+
+var (
+	cloneMemo  map[*TNode]*TNode
+	cloneDepth int
+)
+
+func (n *TNode) clone() *TNode {
 	c := *n
 	if n.Leaf != nil {
 		c.Leaf = n.Leaf.Clone()
@@ -584,4 +650,56 @@ func (g *TreeGen) genCond(r *core.Rng, depth int) *TNode {
 		n.Expr = &TNode{T: "leaf", Leaf: l}
 	}
 	return n
+}
+
+// Spice adds, after generation, the things small fresh trees never have: a very wide stack, a very long string, and ONE
+// nested instance that occurs at two positions (twice in its parent, or in its parent and again at the end of the root).
+func Spice(r *core.Rng, root *TNode, wide, long, share bool) (did string) {
+	var stacks []*TNode
+	var strs []*TNode
+	type occ struct{ parent, kid *TNode }
+	var nested []occ
+	root.Walk(func(n *TNode) {
+		if n.T == "stack" {
+			if n.Cap == 0 {
+				stacks = append(stacks, n)
+			}
+			for _, k := range n.Kids {
+				if (k.T == "stack" || k.T == "cond") && n.Cap == 0 {
+					nested = append(nested, occ{n, k})
+				}
+			}
+		}
+		if n.T == "leaf" && n.Leaf != nil && n.Leaf.Tag == "str" && n.Leaf.S != "" {
+			strs = append(strs, n)
+		}
+	})
+	if wide && len(stacks) > 0 {
+		w := stacks[r.Intn(len(stacks))]
+		for i, n := 0, r.Range(13, 60); i < n; i++ {
+			w.Kids = append(w.Kids, &TNode{T: "leaf", Leaf: &LeafDesc{Tag: "int", I: int64(5000 + i)}})
+		}
+		did += "wide "
+	}
+	if long && len(strs) > 0 {
+		l := strs[r.Intn(len(strs))]
+		n := r.Range(40, 200)
+		b := make([]byte, n)
+		for i := range b {
+			b[i] = "abcdefghijklmnopqrstuvwxyz0123456789"[(i*7+n)%36]
+		}
+		l.Leaf.S = string(b)
+		did += "long "
+	}
+	if share && len(nested) > 0 && root.Cap == 0 {
+		o := nested[r.Intn(len(nested))]
+		o.kid.Shared = true
+		if r.Bool() {
+			o.parent.Kids = append(o.parent.Kids, o.kid)
+		} else {
+			root.Kids = append(root.Kids, o.kid)
+		}
+		did += "shared "
+	}
+	return did
 }
